@@ -366,6 +366,52 @@ fn run_case<H: HK>(hist: &History, ctx: &Ctx) -> Result<CaseInfo, Violation> {
             }
         }
     }
+    // the switch-over FAILS: a quarter of the cases make one more commit whose meta write (or meta fsync) fails once
+    // (injected EIO). The switch-over never becomes durable, so until the call returns every event is still bound by the
+    // rule "nothing the previous durable image depends on is modified" - in particular no hash-table write at all.
+    if hist.salt % 4 == 0 && r.db.is_some() {
+        let step = hist.steps.len();
+        let img = iosim::read_dir_image(&dir).map_err(|e| Violation { step, msg: format!("INFRA: {e}") })?;
+        let old = old_image(&img).map_err(|m| Violation { step, msg: format!("on-disk image before the step is not well-formed: {m}") })?;
+        let mut s = crate::util::SplitMix(hist.salt ^ 0x17fa);
+        let mut batch: BTreeMap<crate::util::Key, MOp> = BTreeMap::new();
+        let existing: Vec<crate::util::Key> = r.model.cur.keys().cloned().collect();
+        for i in 0..(4 + s.below(12)) {
+            let k = if !existing.is_empty() && i % 2 == 0 { existing[s.below(existing.len() as u64) as usize] } else { s.key() };
+            let op = if i % 5 == 4 { MOp::Write(None) } else { MOp::Write(Some(std::sync::Arc::new(crate::util::value_bytes(&k, 7777, 30 + s.below(200) as usize)))) };
+            batch.insert(k, op);
+        }
+        let batch: Vec<(crate::util::Key, MOp)> = batch.into_iter().collect();
+        let fsync_instead = s.below(2) == 1;
+        rec.watch(&dir, Some(iosim::FailPlan { k: fsync_instead as usize, persistent: false, errno: libc::EIO, class: Some("meta") }));
+        let res = r.db().commit_batch(&r.model.cur, &batch, &CommitOpts::default());
+        let fired = !rec.fired().is_empty();
+        let tr = rec.take();
+        rec.unwatch();
+        if fired {
+            if res.is_ok() {
+                return Err(Violation { step, msg: "INFRA: the meta write failed (injected) but the commit returned Ok (C14's business)".into() });
+            }
+            let mut info2 = std::mem::take(&mut r.info);
+            let res = judge(&old, &tr, &mut info2);
+            r.info = info2;
+            res.map_err(|m| Violation { step, msg: format!("after the {} of the meta page FAILED (switch-over never durable): {m}", if fsync_instead { "fsync" } else { "write" }) })?;
+            r.info.bump("syncs_with_failed_switch_over_judged");
+            // the handle is poisoned; drop it without the final consistency pass
+            let info = std::mem::take(&mut r.info);
+            if let Some(db) = r.detach() {
+                let _ = db.close();
+            }
+            crate::hist::rm(&dir);
+            let mut info = info;
+            info.add("syncs_judged", syncs);
+            let l = |k: &str| info.labels.get(k).copied().unwrap_or(0);
+            info.nontrivial = l("syncs_reusing_free_pages") >= 1 && l("delete_existing") >= 1;
+            return Ok(info);
+        } else if res.is_ok() {
+            r.model.commit(&batch);
+        }
+    }
     let mut info = std::mem::take(&mut r.info);
     r.finish()?;
     info.add("syncs_judged", syncs);
@@ -384,7 +430,8 @@ impl Check for C17 {
          judged against the PREVIOUS durable image decoded by the independent decoder right before the operation: a write to ln / bbn page pn requires pn to be a free-list entry or >= the old bump \
          (never a live leaf, overflow page, branch node, free-list page or page 0); resizes of ln / bbn never go below the old bump; no write / resize of the hash-table file at all; exactly one \
          write to meta; the WAL is unrestricted; rollback segments only grow (append / extend), are never truncated below the end of a live record nor unlinked while holding one. For an overlay \
-         chain only the first commit of the step is judged. evaluations = cases; non-trivial = case with >= 1 judged sync that wrote to >= 1 page below the old bump (reuse of freed pages) after \
+         chain only the first commit of the step is judged. A quarter of the cases end with one more commit whose meta write or meta fsync fails once (injected EIO): the switch-over never \
+         becomes durable, so every event until the call returns is judged by the same rules (no hash-table write at all, no live page touched). evaluations = cases; non-trivial = case with >= 1 judged sync that wrote to >= 1 page below the old bump (reuse of freed pages) after \
          deletes; labels count events judged".into()
     }
     fn assumptions() -> Vec<String> {
